@@ -7,11 +7,13 @@ import itertools
 import math
 import numpy as np
 
-from mc import core, fixtures as fx
+from mc import core, fixtures as fx, rthist
 from mc.ref import rt, opac
 
 ID = 'C01'
-RULE = ('cases = full product of the core dimensions (layers x opacity magnitude x contribution subset x '
+RULE = ('two phases.  histories: one live model, every sequence of parameter updates (21 letters over 11 fitted / '
+        'star parameters) up to depth 2 (thorough 3), depth 3 (4) over a 7-letter sub-alphabet, evaluated after every '
+        'update and compared with a fresh model holding the net settings.  inputs: cases = full product of the core dimensions (layers x opacity magnitude x contribution subset x '
         'path method) plus every case with <= 2 deviations from the default letter over all 10 dimensions '
         '(thorough: <= 3 deviations and the full product of 7 dimensions); each case builds a fresh '
         'TransmissionModel, runs model() at cross-section scale 1 and 3, and compares transmittance, '
@@ -206,6 +208,37 @@ def case_fn(case):
     return r
 
 
+# ---------------------------------------------------------------------------------------------
+# history phase: one live model, every sequence of parameter updates, fresh-model differential
+# ---------------------------------------------------------------------------------------------
+HIST_ALPHABET = [['T', 800.0], ['T', 1800.0], ['planet_radius', 0.8], ['planet_radius', 1.3],
+                 ['planet_mass', 0.5], ['planet_mass', 2.0], ['H2O', 1e-6], ['H2O', 1e-3],
+                 ['He_H2', 0.05], ['He_H2', 0.6], ['atm_max_pressure', 1e5], ['atm_max_pressure', 1e7],
+                 ['atm_min_pressure', 1e-3], ['atm_min_pressure', 1e1], ['clouds_pressure', 1e2],
+                 ['clouds_pressure', 3e4], ['flat_mix_ratio', 1e-33], ['flat_mix_ratio', 1e-29],
+                 ['lee_mie_mix_ratio', 1e-16], ['lee_mie_mix_ratio', 1e-9], ['star_radius', 4e8]]
+HIST_REDUCED = [['T', 800.0], ['T', 1800.0], ['planet_mass', 0.5], ['clouds_pressure', 1e2], ['clouds_pressure', 3e4],
+                ['H2O', 1e-3], ['atm_max_pressure', 1e5]]
+
+
+def hist_build(case):
+    fx.reset_caches()
+    c = {'mag': 'tau1', 'mode': 'linear'}
+    install(c, 1.0)
+    spec = {'kind': 'transmission', 'N': case['N'], 'T': ['iso', 1200.0], 'path': case['path'],
+            'gases': [['H2O', ['const', 1e-4]], ['CH4', ['const', 3e-5]]],
+            'contribs': ['abs', ['cia', ['H2-He']], 'ray', ['clouds', 1e3],
+                         ['flat', {'flat_mix_ratio': 1e-31, 'flat_topP': 3e0, 'flat_bottomP': 2e4}],
+                         ['lee', {'lee_mie_mix_ratio': 1e-12, 'lee_mie_radius': 0.05, 'lee_mie_q': 40}]]}
+    return fx.build_model(spec)
+
+
+def hist_fn(case):
+    r = core.R(case)
+    rthist.run_history(r, case['hist'], lambda: hist_build(case), 'transmission/' + case['path'])
+    return r
+
+
 def explore(ctx):
     if ctx.tier == 'quick':
         cases = core.product_cases(DIMS, core=['N', 'mag', 'contribs', 'path'], d=2)
@@ -215,4 +248,14 @@ def explore(ctx):
         ctx.bounds.update(deviations=3, core='N x mag x contribs x path x T x abund x mode')
     # exp interpolation of an all-zero table is log(0/0): outside the value alphabet of C04
     cases = [c for c in cases if not (c['mode'] == 'exp' and c['mag'] == 'zero')]
-    ctx.run_cases('case_fn', cases)
+    ctx.run_cases('case_fn', cases, phase='inputs')
+    if ctx.tier == 'quick':
+        hs = rthist.histories(HIST_ALPHABET, 2, HIST_REDUCED, 3)
+        cfgs = [(4, 'old'), (3, 'new')]
+    else:
+        hs = rthist.histories(HIST_ALPHABET, 3, HIST_REDUCED, 4)
+        cfgs = [(4, 'old'), (3, 'new'), (2, 'old'), (5, 'new')]
+    hcases = [{'N': n, 'path': pth, 'hist': h} for (n, pth) in cfgs for h in hs]
+    ctx.bounds.update(history_depth_full_alphabet=2 if ctx.tier == 'quick' else 3,
+                      history_depth_reduced_alphabet=3 if ctx.tier == 'quick' else 4, histories=len(hcases))
+    ctx.run_cases('hist_fn', hcases, phase='histories')
